@@ -169,7 +169,6 @@ Proof.
     rewrite Hf2, Hf1. reflexivity.
   - cbn [tj_val]. rewrite Hf. reflexivity.
   - cbn [tj_val canon_val] in *. rewrite Hf.
-    apply andb_true_iff in Hc. destruct Hc as [_ Hc].
     destruct (N.eqb_spec (blen b) 0) as [E0|E0].
     + destruct b; [reflexivity|]. rewrite blen_cons in E0. lia.
     + cbn [orb] in Hc. apply andb_true_iff in Hc. destruct Hc as [H1 H2].
